@@ -29,7 +29,6 @@ func (m *machine) setWriterRows(tb *gen.Table, rows [][]gen.Val) {
 	if m.tx != nil {
 		m.tx[tb.Name] = rows
 		m.txDirty = true
-		m.everTxDML = true
 	} else {
 		m.committed[tb.Name] = rows
 	}
@@ -279,14 +278,21 @@ func (m *machine) actDelete(rt *rapid.T) {
 	m.execDML(rt, ss, tb, q, false, newRows)
 }
 
-func (m *machine) execDDL(rt *rapid.T, ss *sessState, q string) {
+// execDDL runs a schema change. A schema change that fails or crashes is the subject of C21
+// (schema changes preserve data), not of this property: the history ends there and is
+// counted (observed: ALTER TABLE .. DROP COLUMN fails with "unable to find field with index"
+// after ADD COLUMN .. FIRST + CREATE INDEX on a table with a composite primary key).
+func (m *machine) execDDL(rt *rapid.T, ss *sessState, q string) bool {
 	m.log(ss.id, q)
 	r := ss.s.Exec(q)
 	if !r.OK() {
-		rt.Fatalf("DDL failed: %s -> %s\n%s\nhistory:\n%s", q, r, r.Stack, m.history())
+		m.st.Class("ddl-failed:out-of-scope(C21)")
+		m.dead = true
+		return false
 	}
 	m.nDDL++
 	m.bump()
+	return true
 }
 
 func (m *machine) actIndex(rt *rapid.T) {
@@ -297,12 +303,19 @@ func (m *machine) actIndex(rt *rapid.T) {
 		rt.Skip("DDL inside a transaction commits implicitly")
 	}
 	tb := m.schema.Tables[rapid.IntRange(0, len(m.schema.Tables)-1).Draw(rt, "table")]
+	for _, e := range m.extra[tb.Name] {
+		if m.shifted[e] {
+			rt.Skip("table has a column added FIRST")
+		}
+	}
 	ss := m.writer(rt)
 	names := m.idxNames[tb.Name]
 	if len(names) > 0 && (len(names) >= 3 || rapid.Bool().Draw(rt, "drop")) {
 		i := rapid.IntRange(0, len(names)-1).Draw(rt, "which")
 		m.st.Class("ddl:drop-index")
-		m.execDDL(rt, ss, "DROP INDEX "+names[i]+" ON "+tb.Name)
+		if !m.execDDL(rt, ss, "DROP INDEX "+names[i]+" ON "+tb.Name) {
+			return
+		}
 		m.idxNames[tb.Name] = append(append([]string{}, names[:i]...), names[i+1:]...)
 		tb.Indexes = append(append([][]int{}, tb.Indexes[:i]...), tb.Indexes[i+1:]...)
 		return
@@ -321,7 +334,9 @@ func (m *machine) actIndex(rt *rapid.T) {
 		cols[i] = tb.Cols[c].Name
 	}
 	m.st.Class("ddl:create-index")
-	m.execDDL(rt, ss, "CREATE INDEX "+name+" ON "+tb.Name+" ("+strings.Join(cols, ",")+")")
+	if !m.execDDL(rt, ss, "CREATE INDEX "+name+" ON "+tb.Name+" ("+strings.Join(cols, ",")+")") {
+		return
+	}
 	m.idxNames[tb.Name] = append(m.idxNames[tb.Name], name)
 	tb.Indexes = append(tb.Indexes, idx)
 }
@@ -339,19 +354,33 @@ func (m *machine) actColumn(rt *rapid.T) {
 	if len(ex) > 0 && (len(ex) >= 2 || rapid.Bool().Draw(rt, "dropcol")) {
 		i := rapid.IntRange(0, len(ex)-1).Draw(rt, "which")
 		m.st.Class("ddl:drop-column")
-		m.execDDL(rt, ss, "ALTER TABLE "+tb.Name+" DROP COLUMN "+ex[i])
+		if !m.execDDL(rt, ss, "ALTER TABLE "+tb.Name+" DROP COLUMN "+ex[i]) {
+			return
+		}
 		m.extra[tb.Name] = append(append([]string{}, ex[:i]...), ex[i+1:]...)
 	} else {
 		m.nameSeq++
 		name := fmt.Sprintf("e%d", m.nameSeq)
 		def := rapid.SampledFrom([]string{"INT DEFAULT 7", "VARCHAR(8) DEFAULT 'x'", "INT"}).Draw(rt, "coldef")
 		pos := ""
-		if rapid.IntRange(0, 2).Draw(rt, "first") == 0 {
-			pos = " FIRST" // shifts the positions of the columns the queries read
+		// FIRST shifts the positions of the columns the queries read. Observed (subject of
+		// C21 / C16, not of this property): on a table with a primary key or a secondary index a
+		// column added FIRST leaves the index definitions pointing at the old positions (UPDATE
+		// panics in sortSecondaryIndexes, DROP COLUMN fails with "unable to find field"); FIRST
+		// is therefore drawn only for tables without keys, which then get no index while the
+		// column exists.
+		if len(tb.PK) == 0 && len(tb.Indexes) == 0 && rapid.IntRange(0, 1).Draw(rt, "first") == 0 {
+			pos = " FIRST"
 		}
 		m.st.Class("ddl:add-column")
-		m.execDDL(rt, ss, "ALTER TABLE "+tb.Name+" ADD COLUMN "+name+" "+def+pos)
+		if !m.execDDL(rt, ss, "ALTER TABLE "+tb.Name+" ADD COLUMN "+name+" "+def+pos) {
+			return
+		}
 		m.extra[tb.Name] = append(m.extra[tb.Name], name)
+		if pos != "" {
+			m.shifted[name] = true
+			m.st.Class("ddl:add-column-first")
+		}
 	}
 	m.verifyTable(rt, ss, tb, "ALTER TABLE")
 }
@@ -410,6 +439,11 @@ func (m *machine) actQuery(twice bool) func(rt *rapid.T) {
 		ss := m.sess[rapid.IntRange(0, len(m.sess)-1).Draw(rt, "session")]
 		p := m.pool[rapid.IntRange(0, len(m.pool)-1).Draw(rt, "query")]
 		mode := rapid.SampledFrom([]string{modeText, modeText, modeSQL, modeAPI}).Draw(rt, "mode")
+		if p.form == formView && m.inTx(ss) && kf.Listed(idViewCommit) {
+			// region of finding C11-view-select-commits: the view is read by the other session
+			m.st.Excluded(idViewCommit)
+			ss = m.sess[1]
+		}
 		m.checkQuery(rt, ss, p, mode, twice)
 	}
 }
@@ -426,18 +460,24 @@ func TestC11(t *testing.T) {
 	rapid.Check(t, func(rt *rapid.T) {
 		st.Eval()
 		schema := gen.GenSchema(rt, gen.SchemaOpts{MinTables: 1, MaxTables: 3, MaxRows: initRows, Keys: true})
-		noIndex := false
-		if kf.Listed(idIndexLeak) && rapid.IntRange(0, 3).Draw(rt, "noindex") != 0 {
-			noIndex = true
-			// region of finding C11-shared-index-rows: 3/4 of the histories run without secondary
-			// indexes (and create none) so that the search continues behind the finding
-			for _, tb := range schema.Tables {
-				tb.Indexes = nil
+		// Region of finding C11-shared-index-rows (uncommitted changes of a transaction reach other
+		// sessions through a secondary index): while it is listed, a history has either no
+		// secondary index or no transaction, so that both are searched, only not together.
+		noIndex, noTx := false, false
+		if kf.Listed(idIndexLeak) {
+			if rapid.Bool().Draw(rt, "noindex") {
+				noIndex = true
+				for _, tb := range schema.Tables {
+					tb.Indexes = nil
+				}
+				st.Excluded(idIndexLeak + ":history-without-secondary-index")
+			} else {
+				noTx = true
+				st.Excluded(idIndexLeak + ":history-without-transaction")
 			}
-			st.Excluded(idIndexLeak + ":no-secondary-index")
 		}
 		m := &machine{st: st, schema: schema, maxRows: maxRows,
-			committed: map[string][][]gen.Val{}, idxNames: map[string][]string{}, extra: map[string][]string{}, twins: map[string]*twin{}}
+			committed: map[string][][]gen.Val{}, idxNames: map[string][]string{}, extra: map[string][]string{}, shifted: map[string]bool{}, twins: map[string]*twin{}}
 		if rapid.Bool().Draw(rt, "coster") {
 			m.coster = hashCoster{rapid.Uint64().Draw(rt, "salt")}
 		}
@@ -461,9 +501,12 @@ func TestC11(t *testing.T) {
 		}
 		m.genPool(rt)
 
-		index := m.actIndex
-		if m.noIndex {
+		index, begin := m.actIndex, m.actBegin
+		if noIndex {
 			index = func(rt *rapid.T) { rt.Skip("no secondary indexes in this history") }
+		}
+		if noTx {
+			begin = func(rt *rapid.T) { rt.Skip("no transactions in this history") }
 		}
 		rt.Repeat(map[string]func(*rapid.T){
 			"insert-a": m.actInsert, "insert-b": m.actInsert,
@@ -471,7 +514,7 @@ func TestC11(t *testing.T) {
 			"delete":     m.actDelete,
 			"index":      index,
 			"column":     m.actColumn,
-			"begin":      m.actBegin,
+			"begin":      begin,
 			"end":        m.actEnd,
 			"query-a":    m.actQuery(false),
 			"query-b":    m.actQuery(false),
